@@ -91,6 +91,10 @@ func (f *FieldUpdater) Merge(dst, src proto.Message) {
 	proto.Merge(dst, src)
 
 	// if a field mentioned by the mask is nil, we should clear it
+	if f.writableFields != nil {
+		// but only if it's writable, the update mask may mention a parent of the writable fields
+		nestedMask = fmutils.NestedMaskFromPaths(normalizedPaths(f.fullMask()))
+	}
 	pruneEmpty(dst, src, nestedMask)
 
 	if f.resetMask != nil {
